@@ -687,7 +687,8 @@ fn expand_brace_range(tokens: &mut types::Tokens) {
             Ok(x) => x,
             Err(e) => {
                 println_stderr!("cicada: {}", e);
-                return;
+                idx += 1;
+                continue;
             }
         };
 
@@ -695,7 +696,8 @@ fn expand_brace_range(tokens: &mut types::Tokens) {
             Ok(x) => x,
             Err(e) => {
                 println_stderr!("cicada: {}", e);
-                return;
+                idx += 1;
+                continue;
             }
         };
 
@@ -707,7 +709,8 @@ fn expand_brace_range(tokens: &mut types::Tokens) {
                 Ok(x) => x,
                 Err(e) => {
                     println_stderr!("cicada: {}", e);
-                    return;
+                    idx += 1;
+                    continue;
                 }
             }
         };
